@@ -122,7 +122,20 @@ class GX(gen.G):
             if ty[1] == "int" and r < 18:
                 # component-wise comparison of two vectors of equal size (float or int)
                 src = self.pick([M.vec("float", ty[2]), ty])
-                return M.Bin(self.pick(M.CMP), self.vexpr(src, depth - 1), self.vexpr(src, depth - 1))
+                left = self.vexpr(src, depth - 1)
+                same = [n for n, t in self.visible().items() if t == src]
+                if same and self.chance(45):
+                    # operands that agree in some components (<= vs <, >= vs >, == on equal parts)
+                    v = M.Var(self.pick(sorted(same)), src)
+                    left = v
+                    if self.chance(50):
+                        right = M.Var(v.name, src)
+                    else:
+                        letters = XYZW[:src[2]]
+                        mask = "".join(self.pick(letters) if self.chance(40) else letters[i] for i in range(src[2]))
+                        right = M.Member(M.Var(v.name, src), mask, src)
+                    return M.Bin(self.pick(M.CMP), left, right)
+                return M.Bin(self.pick(M.CMP), left, self.vexpr(src, depth - 1))
             if r < 45:
                 return M.Bin(self.pick(["+", "-"]), self.vexpr(ty, depth - 1), self.vexpr(ty, depth - 1))
             if r < 70:
@@ -215,7 +228,22 @@ class GX(gen.G):
         self.declare(name, t)
         return M.Decl(t, name, M.Var(n, t))
 
+    def void_call_stmt(self):
+        cands = [(i, f) for i, f in enumerate(self.funcs) if f.ret == M.VOID]
+        if not cands or self.nest >= 2:
+            return None
+        i, f = self.pick(cands)
+        self.nest += 1
+        args = [self.arg_for(pty, 1) for pty, _ in f.params]
+        self.nest -= 1
+        return M.ExprStmt(M.Call(f.name, args, M.VOID, i))
+
     def stmt(self, depth):
+        if self.feat.get("calls") and self.chance(12):
+            s = self.void_call_stmt()
+            if s is not None:
+                self.budget -= 1
+                return s
         if self.feat.get("vec", True):
             r = self.d(st.integers(0, 99))
             if r < 12:
@@ -244,8 +272,17 @@ class GX(gen.G):
         i, f = self.pick(cands)
         self.nest += 1
         args = [self.arg_for(pty, depth - 1) for pty, _ in f.params]
+        if self.feat.get("convert_args") and any(p == FLOAT for p, _ in f.params) and self.chance(45):
+            # pass an int where a float is expected, but only if the call still resolves to f
+            from .checks.c10 import resolve
+            alt = [self.expr(INT, max(depth - 1, 0)) if (p == FLOAT and self.chance(60)) else a
+                   for a, (p, _) in zip(args, f.params)]
+            same = [g for g in self.funcs if g.name == f.name]
+            sigs = [tuple(t for t, _ in g.params) for g in same]
+            if resolve(sigs, tuple(a.ty for a in alt)) == same.index(f):
+                args = alt
         self.nest -= 1
-        if f.name.startswith("r"):
+        if f.name.startswith(("r", "t")):
             # recursion depth is the first argument: keep it small
             k = self.d(st.integers(0, 4))
             args[0] = M.Lit(k, INT, str(k))
@@ -339,7 +376,7 @@ def vector_case(draw, n_inputs=3):
 @st.composite
 def calls_case(draw, n_inputs=3):
     """C03: 2-5 functions, nested / repeated / recursive / overloaded calls; callees modify their parameters."""
-    g = GX(draw, {"storage": False, "vec": True, "calls": True, "callpct": 22,
+    g = GX(draw, {"storage": False, "vec": True, "calls": True, "callpct": 22, "convert_args": True,
                   "vtypes": [M.vec("float", 2), M.vec("float", 3), M.vec("int", 2), M.mat("float", 3, 3)]})
     ptypes = [INT, INT, FLOAT, FLOAT, M.vec("float", 2), M.vec("float", 3), M.vec("int", 2), M.mat("float", 3, 3)]
     globs = []
@@ -351,13 +388,14 @@ def calls_case(draw, n_inputs=3):
     used = set()
     for k in range(nf):
         shape = draw(st.integers(0, 9))
-        if shape < 2 and k > 0:
-            # overload of an earlier helper with different parameter types
-            base = g.pick(g.funcs)
+        if shape < 3 and k > 0 and any(f.ret != M.VOID and not f.name.startswith(("r", "t")) for f in g.funcs):
+            # overload of an earlier helper with different parameter types and / or count
+            base = g.pick([f for f in g.funcs if f.ret != M.VOID and not f.name.startswith(("r", "t"))])
             name = base.name
             sig = None
             for _ in range(6):
-                cand = tuple(g.pick(ptypes) for _ in base.params)
+                n_par = len(base.params) if g.chance(50) else draw(st.integers(1, 3))
+                cand = tuple(g.pick(ptypes) for _ in range(n_par))
                 if all(tuple(t for t, _ in f.params) != cand for f in g.funcs if f.name == name) and not any(
                         _confusable(cand, tuple(t for t, _ in f.params)) for f in g.funcs if f.name == name):
                     sig = cand
@@ -368,6 +406,12 @@ def calls_case(draw, n_inputs=3):
         elif shape < 4:
             name = "r%d" % k
             g.funcs.append(_recursive(g, name))
+            continue
+        elif shape < 5:
+            g.funcs.append(_tree_recursive(g, "t%d" % k))
+            continue
+        elif shape < 6 and g.globals:
+            g.funcs.append(_void_helper(g, "v%d" % k, tuple(g.pick(ptypes) for _ in range(draw(st.integers(1, 2))))))
             continue
         else:
             name = "h%d" % k
@@ -489,6 +533,62 @@ def _recursive(g, name):
     stmts.append(M.Return(ret))
     g.pop()
     return M.Func(name, [(INT, "p0"), (ty, "p1")], ty, M.Block(stmts), False)
+
+
+def _tree_recursive(g, name):
+    """function t(int n, int acc) -> int with TWO recursive calls per activation (fib-like);
+    own parameters and locals are read after each call returned"""
+    g.scopes = [gen.Scope()]
+    g.names_in_func = set()
+    g.counter = 0
+    g.protected = {"p0"}
+    g.bounded = {}
+    g.loop_depth = 0
+    g.declare("p0", INT)
+    g.declare("p1", INT)
+    g.ret_ty = INT
+    n = M.Var("p0", INT)
+    acc = M.Var("p1", INT)
+    idx = len(g.funcs)
+    one, two = M.Lit(1, INT, "1"), M.Lit(2, INT, "2")
+    base = M.If(M.Bin("<=", n, one), M.Block([M.Return(M.Bin("+", acc, n))]))
+    a = M.Decl(INT, "a", M.Call(name, [M.Bin("-", n, one), M.Bin("+", acc, one)], INT, idx))
+    mod = M.ExprStmt(M.Assign(acc, "=", M.Bin("+", M.Bin("*", acc, two), n)))
+    b = M.Decl(INT, "b", M.Call(name, [M.Bin("-", n, two), acc], INT, idx))
+    ret = M.Return(M.Bin("+", M.Bin("+", M.Var("a", INT), M.Bin("*", M.Var("b", INT), M.Lit(3, INT, "3"))), M.Bin("+", acc, n)))
+    return M.Func(name, [(INT, "p0"), (INT, "p1")], INT, M.Block([base, a, mod, b, ret]), False)
+
+
+def _void_helper(g, name, sig):
+    """void callee WITHOUT a return statement: writes a global and modifies its parameters"""
+    g.scopes = [gen.Scope()]
+    g.names_in_func = set()
+    g.counter = 0
+    g.protected = set()
+    g.bounded = {}
+    g.loop_depth = 0
+    params = []
+    for k, ty in enumerate(sig):
+        params.append((ty, "p%d" % k))
+        g.declare("p%d" % k, ty)
+    g.ret_ty = INT
+    g.push()
+    stmts = []
+    for ty, nm in params:
+        v = M.Var(nm, ty)
+        if M.is_scalar(ty):
+            stmts.append(M.ExprStmt(M.Assign(v, g.pick(["+=", "*=", "="]), g.rhs(ty, 1))))
+        else:
+            s = g.vassign_stmt()
+            if s is not None:
+                stmts.append(s)
+    gn = g.pick(sorted(g.globals))
+    gt = g.globals[gn]
+    src = [nm for ty, nm in params if ty == gt or (ty == INT and gt == FLOAT)]
+    val = M.Var(src[0], dict((n, t) for t, n in params)[src[0]]) if src else g.rhs(gt, 1)
+    stmts.append(M.ExprStmt(M.Assign(M.Var(gn, gt), "=", M.Bin("+", M.Var(gn, gt), val))))
+    g.pop()
+    return M.Func(name, params, M.VOID, M.Block(stmts), False)
 
 
 def _resolve_targets(prog):
